@@ -71,5 +71,38 @@ theorem validateDelegatedAmount_is_source (dl : Delegation) (amt : Int) (v : Val
         · simp [h1, h2, h3, pure, Except.pure]
         · simp [h1, h2, h3, pure, Except.pure]
 
+theorem subtractDecCoinsWithRounding_is_source (d1s d2s : DecCoins) :
+    Generated.SubtractDecCoinsWithRounding d1s d2s = subtractDecCoinsWithRounding d1s d2s := by
+  unfold Generated.SubtractDecCoinsWithRounding subtractDecCoinsWithRounding
+  simp only [Bool.and_eq_true, decide_eq_true_eq, GoSem.decCoinsSub]
+  show ((forIn d2s (id d1s) _ : Except Err DecCoins) >>= fun s => Pure.pure s) = List.foldlM _ (id d1s) d2s
+  generalize id d1s = init
+  induction d2s generalizing init with
+  | nil => rfl
+  | cons c t ih =>
+    rw [List.forIn_cons, List.foldlM_cons]
+    by_cases h : c.2 > DecCoins.amountOf d1s c.1 ∧ c.2 - DecCoins.amountOf d1s c.1 < one
+    · simp only [h, and_self, if_true]
+      cases Alliance.decCoinsSub init (DecCoins.single c.1 (DecCoins.amountOf d1s c.1)) with
+      | error e => rfl
+      | ok x => exact ih x
+    · simp only [h, if_false]
+      cases Alliance.decCoinsSub init (DecCoins.single c.1 c.2) with
+      | error e => rfl
+      | ok x => exact ih x
+
+theorem rewardsStarted_is_source (a : Asset) (t : Time) :
+    Generated.RewardsStarted a t = .ok (rewardsStarted a t) := by
+  unfold Generated.RewardsStarted rewardsStarted
+  show Except.ok (decide (t > a.startTime) || decide (t = a.startTime)) = Except.ok (decide (t ≥ a.startTime))
+  congr 1
+  by_cases h1 : t > a.startTime
+  · have : t ≥ a.startTime := by unfold Time at *; omega
+    simp [h1, this]
+  · by_cases h2 : t = a.startTime
+    · simp [h2]
+    · have : ¬ t ≥ a.startTime := by unfold Time at *; omega
+      simp [h1, h2, this]
+
 end ArithTie
 end Alliance
